@@ -61,7 +61,10 @@ RULE = ("Part A: Hypothesis-generated solutions on the shipped ion-association d
         "charge-balanced solution ('pH 7 charge') or a REACTION step on charge-balanced pure water; Gibbs-Duhem residual after "
         "Richardson extrapolation <= 1e-4 * sum|terms| (three nested trapezoid levels, inconclusive unless the refinement ratio is "
         "~4) and |ln a_w + phi*sum(m)/55.50837| <= 1e-5 at every node. Non-trivial (path) = reported MU at the last node >= 0.5 "
-        "and >= 2 distinct ions above 1e-6 molal. Distinct by SHA-256 of the case")
+        "and >= 2 distinct ions above 1e-6 molal. Every case starts from a fresh instance + LoadDatabase; in the 'history' "
+        "variants (about 45 % of the paths, 20 % of the IA cases) one or two unrelated solutions (other salts / elements, other "
+        "temperature; chloride and bromide brines favoured before paths) are speciated on the same instance in earlier RunString "
+        "calls, without reloading - the oracle is unchanged. Distinct by SHA-256 of the case")
 ASSUMPTIONS = ["vp/dbparse.py reads the -gamma / -llnl_gamma / -co2_llnl_gamma options, charges and the LLNL_AQUEOUS_MODEL_PARAMETERS "
                "tables as the PHREEQC documentation defines them",
                "activity-coefficient rules R1-R5 as quoted in the module docstring (PHREEQC-2 manual eq. 5/6 and the description of "
@@ -78,6 +81,8 @@ ASSUMPTIONS = ["vp/dbparse.py reads the -gamma / -llnl_gamma / -co2_llnl_gamma o
                "|CHARGE_BALANCE| > 1e-9 sum|z m| are discarded",
                "1/M_w = 55.50837 mol/kg (value the model is defined with); trapezoid rule in ln a on a grid equidistant in ln t has an "
                "h^2 error expansion (Richardson)",
+               "the relations hold for every completed calculation whatever the same instance computed before (history variants); a "
+               "history run that stops with an error discards the case",
                "paths whose quadrature is not in the asymptotic regime are discarded as inconclusive, never reported as violations"]
 TECHNIQUE = ("property-based testing (Hypothesis): reference re-evaluation of the database's activity model per species; "
              "metamorphic multi-run relation (Gibbs-Duhem path integral) for Pitzer/SIT")
@@ -90,8 +95,8 @@ FLOORS = {"quick": 340, "thorough": 3400}
 SHARDS = {"quick": 8, "thorough": 16}
 if os.environ.get("C16_DEV_SHARDS"):
     SHARDS = {"quick": int(os.environ["C16_DEV_SHARDS"]), "thorough": int(os.environ["C16_DEV_SHARDS"])}
-# per shard: (c01-type IA cases, brine IA cases, paths)
-BUDGET = {"quick": (200, 400, 120), "thorough": (1500, 3000, 900), "replay": (1, 1, 1)}
+# per shard: (c01-type IA cases, brine IA cases, brine IA cases with history, paths on a fresh instance, paths with history)
+BUDGET = {"quick": (160, 300, 120, 75, 65), "thorough": (1200, 2200, 900, 550, 500), "replay": (1, 1, 1, 1, 1)}
 
 TOL_LG = 1e-9
 TOL_GD = 1e-4
@@ -208,9 +213,7 @@ def _label(inf, el):
 
 
 @st.composite
-def brine_st(draw, databases):
-    names = [d for d, w in databases for _ in range(w)]
-    dbn = draw(st.sampled_from(names))
+def brine_sol_st(draw, dbn, number=1):
     inf = c01.info(dbn)
     majors = [m for m in MAJOR if _label(inf, m)]
     nm = draw(st.integers(1, min(6, len(majors))))
@@ -229,9 +232,22 @@ def brine_st(draw, databases):
     while len(comps) > 1 and len(inf.species_for(sorted({inf.db.master[c["el"]].base for c in comps}))) > c01.MAX_SPECIES:
         comps.pop()
     pH = draw(cg.uni(3.0, 11.0, 3))
-    sol = {"number": 1, "temp": draw(ia_temp_st(inf)), "pH": pH, "pe": c01._r(draw(cg.uni(2.0, 14.0, 3)) - pH, 4),
-           "units": "mol/kgw", "comps": comps}
-    return {"kind": "ia", "gen": "brine", "db": dbn, "sols": [sol], "react": []}
+    return {"number": number, "temp": draw(ia_temp_st(inf)), "pH": pH, "pe": c01._r(draw(cg.uni(2.0, 14.0, 3)) - pH, 4),
+            "units": "mol/kgw", "comps": comps}
+
+
+@st.composite
+def brine_st(draw, databases, history=False):
+    """history=True: one or two unrelated solutions (other elements, other temperature) are speciated on the SAME instance
+    before the case, each in its own RunString call; the oracle on the case is unchanged (the models must hold whatever the
+    instance computed before)"""
+    names = [d for d, w in databases for _ in range(w)]
+    dbn = draw(st.sampled_from(names))
+    case = {"kind": "ia", "gen": "brine", "db": dbn, "sols": [draw(brine_sol_st(dbn))], "react": []}
+    if history:
+        case["gen"] = "brine+history"
+        case["hist"] = [draw(brine_sol_st(dbn, 900 + k)) for k in range(draw(st.sampled_from([1, 1, 2])))]
+    return case
 
 
 def _into_range(case):
@@ -315,6 +331,10 @@ def check_ia(case, ctx):
             raise
         raise Discard("database_load_error:" + case["db"])
     try:
+        for h in case.get("hist", []):
+            # earlier, unrelated work of the same instance (no reload in between)
+            if I.run_string(cg.KNOBS_TIGHT + "\n" + c01.render_solution(h) + "\nEND\n") != 0 or I.errors().strip():
+                raise Discard("ia_history_run_error")
         rc = I.run_string(text)
         if rc != 0 or I.errors().strip():
             err = I.errors().strip().split("\n")[0][:60]
@@ -399,6 +419,11 @@ def check_ia(case, ctx):
     classes += ["ia:" + t for t in sorted({i_bucket(m) for m in mus})]
     for r in case["react"]:
         classes.append("ia:react=" + r["kind"])
+    if case.get("hist"):
+        classes.append("ia:history=%d" % len(case["hist"]))
+        mine = {db.master[c["el"]].base for sol in case["sols"] for c in sol["comps"]}
+        if any(db.master[c["el"]].base not in mine for h in case["hist"] for c in h["comps"]):
+            classes.append("ia:history_had_elements_absent_from_the_case")
     if n_llnl_default:
         classes.append("ia:species_without_llnl_gamma_in_llnl_file_checked")
         ctx.extra["ia_species_checked:without_llnl_gamma_in_llnl_file"] = \
@@ -513,6 +538,40 @@ def path_st(draw):
     return {"kind": "path", "db": dbn, "temp": temp, "salts": salts, "t0": t0, "imax": imax, "n": n, "mode": mode}
 
 
+HIST_ANION_W = {"Cl": 12, "Br": 4, "SO4": 2, "HCO3": 2, "CO3": 1, "NO3": 1, "Al(OH)4": 1}
+
+
+@st.composite
+def path_hist_st(draw):
+    """a path preceded, on the SAME instance and without reloading the database, by one or two unrelated speciations (brines
+    of other salts at another temperature; chloride and bromide brines favoured).  The oracle on the path is unchanged."""
+    case = draw(path_st())
+    pi = pinfo(case["db"])
+    tlo, thi = [rng for d, w, rng in PATH_DATABASES if d == case["db"]][0]
+    weighted = []
+    for s in pi.salts:
+        c, a = s.split("|")
+        weighted += [s] * (CATION_W[c] * HIST_ANION_W[a])
+    hist = []
+    for k in range(draw(st.sampled_from([1, 1, 2]))):
+        ns = draw(st.sampled_from([1, 2, 2, 3]))
+        chosen = draw(st.lists(st.sampled_from(weighted), min_size=ns, max_size=ns, unique=True))
+        hist.append({"temp": draw(temp_st(tlo, thi)), "salts": [[x, draw(cg.logu(0.01, 2.0, 3))] for x in chosen]})
+    return dict(case, hist=hist)
+
+
+def hist_text(pi, h, number):
+    totals = {}
+    for name, m in h["salts"]:
+        for e, nu in salt_info(name)["totals"].items():
+            totals[e] = totals.get(e, 0.0) + nu * m
+    L = [pi.prefix + cg.KNOBS_TIGHT, "SOLUTION %d" % number, " temp " + cg.fmt(h["temp"]), " pH 7 charge", " units mol/kgw"]
+    for e in sorted(totals):
+        L.append(" %s %s" % (e, cg.fmt(totals[e])))
+    L.append("END")
+    return "\n".join(L) + "\n"
+
+
 def path_composition(case):
     """amount of each salt per unit t such that the nominal (fully dissociated) ionic strength at t is t molal"""
     infos = [(salt_info(s), w) for s, w in case["salts"]]
@@ -583,6 +642,10 @@ def check_path(case, ctx):
             raise
         raise Discard("database_load_error:" + case["db"])
     try:
+        for k, h in enumerate(case.get("hist", [])):
+            # earlier, unrelated work of the same instance (no reload in between)
+            if I.run_string(hist_text(pi, h, 900 + k)) != 0 or I.errors().strip():
+                raise Discard("path_history_run_error")
         rc = I.run_string(text)
         if rc != 0 or I.errors().strip():
             err = I.errors().strip().split("\n")[0][:60]
@@ -681,6 +744,21 @@ def check_path(case, ctx):
         classes.append("path:>=2_anions(theta_aa,psi_caa)")
     if any(abs(CATIONS[c]) == 2 for c in cats) and any(CATIONS[c] == 1 for c in cats):
         classes.append("path:1-2_cation_mixing(etheta)")
+    if case.get("hist"):
+        classes.append("path:history=%d" % len(case["hist"]))
+        mine = set()
+        for x, _ in case["salts"]:
+            mine |= {salt_info(x)["cation"], salt_info(x)["anion"]}
+        other = set()
+        for h in case["hist"]:
+            for x, _ in h["salts"]:
+                other |= {salt_info(x)["cation"], salt_info(x)["anion"]}
+        if other - mine:
+            classes.append("path:history_had_ions_absent_from_the_path")
+        if "Cl" in other - mine:
+            classes.append("path:chloride-free_path_after_chloride_history")
+    else:
+        classes.append("path:fresh_instance")
     if an["skipped"]:
         ctx.event("path:terms_skipped(species_present_at_one_end_only)", an["skipped"])
     return {"nontrivial": nt, "classes": classes}
@@ -694,8 +772,10 @@ def check_case(case, ctx):
 
 
 def run(ctx):
-    n_c01, n_brine, n_path = BUDGET[ctx.tier]
+    n_c01, n_brine, n_brine_h, n_path, n_path_h = BUDGET[ctx.tier]
     dbs = IA_DATABASES + IA_THOROUGH_EXTRA if ctx.tier == "thorough" else IA_DATABASES
     ctx.hyp(path_st(), lambda c: check_case(c, ctx), n_path, "paths")
+    ctx.hyp(path_hist_st(), lambda c: check_case(c, ctx), n_path_h, "paths-history")
     ctx.hyp(brine_st(dbs), lambda c: check_case(c, ctx), n_brine, "ia-brine")
+    ctx.hyp(brine_st(dbs, history=True), lambda c: check_case(c, ctx), n_brine_h, "ia-brine-history")
     ctx.hyp(ia_c01_st(dbs), lambda c: check_case(c, ctx), n_c01, "ia-c01")
